@@ -84,6 +84,10 @@ def model (op : String) (args : List String) : Option String :=
   | "bits.ofbytes", [x, sz, bo] => do
       let x ← parseBytes? x; let sz ← parseOptNat? sz; let bo ← parseInt? bo
       pure (fmtE fmtBits (Bits.ofBytes x sz bo))
+  | "bits.reload", [_b, x, bo] => do
+      -- `b.load(s,bitorder)` on an EXISTING vector: what it held before must not matter
+      let x ← parseBytes? x; let bo ← parseInt? bo
+      pure (fmtE fmtBits (Bits.ofBytes x none bo))
   | "bits.ofbits", [b, sz] => do
       let b ← parseBits? b; let sz ← parseOptNat? sz
       pure (fmtBits (match sz with | none => b | some n => b.setSize n))
